@@ -129,6 +129,18 @@ def _act(rec):
     _actlog.flush()
 
 
+def drive_manually(search, evaluator, rounds):
+    """The second public entry point: ask / submit / gather / tell / dump, never search()."""
+    for n in rounds:
+        configs = search.ask(n)
+        evaluator.submit(configs)
+        results = evaluator.gather("ALL")
+        search.tell(results)
+        search.dump_jobs_done_to_csv()
+    search.dump_jobs_done_to_csv(flush=True)
+    evaluator.close()
+
+
 def run_scenario():
     problem = HpProblem()
     problem.add_hyperparameter((0.0, 10.0), "x")
@@ -164,6 +176,12 @@ def run_scenario():
         evaluator.dump_jobs_done_to_csv = dump
         _act(dict(act="new", at=_count[0]))
         search = RandomSearch(problem, evaluator, random_state=si + 1, log_dir=LOGDIR)
+        if sc.get("drive") == "manual":
+            try:
+                drive_manually(search, evaluator, sc["calls"])
+            except Exception as e:
+                _act(dict(act="raised", exc=type(e).__name__, msg=str(e)[:200], at=_count[0]))
+            continue
         for n in sc["calls"]:
             try:
                 search.search(max_evals=n)
@@ -209,8 +227,11 @@ def run_restart(spec):
                     search.fit_surrogate(os.path.join(LOGDIR, fn))
         else:
             search = RandomSearch(problem, evaluator, random_state=7, log_dir=LOGDIR)
-        search.search(max_evals=spec["n"])
-        _act(dict(act="end", at=_count[0]))
+        if spec.get("drive") == "manual":
+            drive_manually(search, evaluator, [1] * spec["n"])
+        else:
+            search.search(max_evals=spec["n"])
+            _act(dict(act="end", at=_count[0]))
     except Exception as e:
         import traceback
 
